@@ -102,6 +102,22 @@ def table_term(model, tests, dts):
             f"{bx.clist(s, str, 'option str * prim * str')} {t} {dt} dt_table)")
 
 
+def nodefault_term(model):
+    """init fields without a default, per class OF THE BINDING MODEL (the default class_factory raises for them).
+    The shared exporter appends the generic classes AnyElement / DerivedElement to every universe; they are
+    never built through class_factory (the parser model has VAny / VDerived values for them), so their
+    required fields (DerivedElement.qname / value) are not part of the guard `nodefault_free`."""
+    import dataclasses
+    n = getattr(model, "n_model_classes", len(model.classes))
+    rows = []
+    for cl in model.classes[:n]:
+        names = [f.name for f in dataclasses.fields(cl)
+                 if f.init and f.default is dataclasses.MISSING and f.default_factory is dataclasses.MISSING]
+        if names:
+            rows.append(f"({bx.cN(model.ex.cid[cl])}, {bx.clist(names, bx.cstr, 'str')})")
+    return bx.clist(rows, str, "cls * list str")
+
+
 def run_job(job):
     out = {"universe": None, "nodefault": None, "root": None, "unsupported": None, "cases": []}
     try:
@@ -187,7 +203,7 @@ def run_job(job):
             res["user"] = bx.clist((ns_map or {}).items(), lambda kv: f"({bx.copt(kv[0], bx.cstr)}, {bx.cstr(kv[1])})", "option str * str")
         try:
             out["universe"] = ex.universe_term()
-            out["nodefault"] = model.nodefault_term()
+            out["nodefault"] = nodefault_term(model)
             out["root"] = bx.cN(ex.cid[model.root])
             out["table"] = table_term(model, tests, dts)
         except bx.Unsupported as e:
